@@ -213,14 +213,13 @@ def build_args(desc: dict[str, Any], recipe: list[Any], variant: int, profile: s
     for i, p in enumerate(desc["params"]):
         num, den, k, sgn, u1, u2, px1, px2 = recipe[i % len(recipe)]
         if profile == "tied":
-            # ties: parameters of one dimension get exactly the same SI value (boundaries of piecewise laws, a - b = 0);
-            # every other time also the same unit spelling
+            # ties: parameters of one dimension get exactly the same SI value (boundaries of piecewise laws, a - b = 0)
             dkey = str(_dimvec(p["dim"])) if _dimvec(p["dim"]) is not None else None
             if dkey is not None and dkey in seen_dims:
                 j = seen_dims[dkey]
-                num, den, k, sgn = recipe[j % len(recipe)][:4]
-                if sgn % 2 == 0:
-                    u1, u2, px1, px2 = recipe[j % len(recipe)][4:]
+                # the whole recipe entry is shared: same SI value in the same unit spelling (a tie written in two different
+                # inexact units is a tie only up to the last bit of the conversion)
+                num, den, k, sgn, u1, u2, px1, px2 = recipe[j % len(recipe)]
                 info["tied"] = True
             elif dkey is not None:
                 seen_dims[dkey] = i
@@ -904,7 +903,18 @@ def _exact_integer_solution(desc: dict[str, Any], sub: dict[Any, Any]) -> Any:
     except Exception:  # pylint: disable=broad-except
         return None
     ints = [e for e in exact if e.is_Integer]
-    return ints[0] if len(exact) == 1 and ints else None
+    if len(exact) != 1 or not ints:
+        return None
+    # the tie must survive plain double-precision evaluation as well (log(0.1)/log(10) is -0.9999999999999998 in doubles:
+    # a function working in floats may then legitimately round the other way)
+    try:
+        syms = sorted(inputs, key=str)
+        dummies = {k: sympy.Dummy(f"v{i}") for i, k in enumerate(syms)}  # library symbols print under display names
+        f = sympy.lambdify([dummies[k] for k in syms], sols[0].xreplace(dummies), modules="math")
+        fval = f(*[float(inputs[k]) for k in syms])
+    except Exception:  # pylint: disable=broad-except
+        return None
+    return ints[0] if fval == float(ints[0]) else None
 
 
 def _documented_ok(op: str, desc: dict[str, Any], sub: dict[Any, Any], qsub: dict[Any, Any], va: Any) -> bool:
